@@ -1,15 +1,17 @@
 import os
 import vlib
 
-THEOREMS = []
+THEOREMS = ["Dispenso.RWLock." + t for t in [
+    "C22_exclusion", "C22_word", "C22_try_sound", "C22_failed_try_lock_restores", "C22_no_lost_wakeup", "C22_parked",
+    "C22_no_deadlock", "C22_two_upgraders_stuck"]]
 
 
 def run(ctx, replay):
-    ctx.cov["rule"] = ("random producer plans (try_push / try_push_batch) and consumer plans (try_pop / try_pop_batch / "
-                       "size, empty, full) for capacities 1..4 (exact and power-of-two buffer sizes) under the deterministic "
-                       "scheduler; element construction/move are atomic events; every trace is replayed through the Lean "
-                       "model; oracle: popped sequence is a prefix of the pushed sequence, occupancy <= capacity, "
-                       "rejections only when full/empty at call start, lifetimes balance; distinct = (K, #pushed, #popped)")
+    ctx.cov["rule"] = ("2..4 threads performing bounded random sequences of lock / try_lock / lock_shared / try_lock_shared "
+                       "(+ lock_downgrade, and lock_upgrade in scenarios where one thread is the only writer, as the class "
+                       "requires) under the deterministic scheduler; every trace replayed through the Lean model; oracle: "
+                       "occupancy counters (writer exclusive, no reader with a writer), lock word zero at the end, deadlock / "
+                       "livelock detector; distinct = distinct (threads, plan) descriptions")
     if THEOREMS:
         ctx.prove("DispensoVerif.Props.C22", THEOREMS)
     else:
